@@ -16,7 +16,7 @@ def mutsOf : List Lbl → List Op
 /-- the number of addChild labels -/
 def addsOf : List Lbl → Nat
   | [] => 0
-  | .addChild :: r => addsOf r + 1
+  | .addChild _ :: r => addsOf r + 1
   | _ :: r => addsOf r
 
 def isEndLock : Lbl → Bool
